@@ -119,14 +119,15 @@ def reconnect_decision(persistent: bool, always: bool, wait: int, elapsed: int, 
 LOSSES = ["gone", "socket_error", "dpr_then_gone", "dwa_timeout", "node_close", "cea_rejected"]
 
 
-def reconnect_after_loss(loss: int, always: bool, wait: int, e1: int, prior: bool) -> bool:
+def reconnect_after_loss(loss: int, always: bool, wait: int, e1: int, prior: bool, dpr_on_second: bool) -> bool:
     """
     pre: 0 <= loss < len(LOSSES) and 1 <= wait <= 60 and 0 <= e1 <= 100
+    pre: (not dpr_on_second) or (loss != 5 and loss != 2)
     post: _
     """
     hx.begin()
     ls = LOSSES[hx.concretize_range(loss, 0, len(LOSSES))]
-    inputs = (loss, always, wait, e1, prior)
+    inputs = (loss, always, wait, e1, prior, dpr_on_second)
     try:
         h = H.Hist(init="fresh", persistent=True)
         n, p = h.n, h.p
@@ -145,6 +146,14 @@ def reconnect_after_loss(loss: int, always: bool, wait: int, e1: int, prior: boo
         c = h.newest()
         if c is None:
             return hx.fail(inputs, "bench: no outbound connection")
+        if dpr_on_second:
+            # the peer had opened a second connection and closed it cleanly (DPR/DPA) while ours stayed up
+            h.ev_accept()
+            h.ev_cer(PEER, [4])
+            c2 = h.newest()
+            if c2 is not c:
+                h._push(c2, B.dpr(PEER, 771, 771).as_bytes())
+                h.ev_gone(c2)
         if ls == "gone":
             h.ev_gone(c)
         elif ls == "socket_error":
